@@ -51,10 +51,11 @@ def main():
         assert S in o, o
         if not skip_tests:
             t0 = time.time()
-            rc, o = sh("/venv/bin/python -m pytest -q -p no:cacheprovider -n 6 -W ignore tests 2>&1 | tail -5", env=env, cwd=S, timeout=3600)
+            # the baseline environment: no statsmodels shim, tests/models/cross cannot be collected (as in BASELINE.json)
+            rc, o = sh("/venv/bin/python -m pytest -q -p no:cacheprovider --continue-on-collection-errors -n 6 -W ignore tests 2>&1 | tail -5", env={"PYTHONPATH": S, "PYTHONHASHSEED": "0"}, cwd=S, timeout=3600)
             m = re.search(r"(\d+) passed", o)
             f = re.search(r"(\d+) failed", o)
-            meta["tests_with_patch"] = dict(passed=int(m.group(1)) if m else 0, failed=int(f.group(1)) if f else 0, wall_s=round(time.time() - t0), cmd="pytest -q -n 6 tests (PYTHONPATH=<patched copy>)")
+            meta["tests_with_patch"] = dict(passed=int(m.group(1)) if m else 0, failed=int(f.group(1)) if f else 0, wall_s=round(time.time() - t0), cmd="pytest -q -p no:cacheprovider --continue-on-collection-errors -n 6 tests (PYTHONPATH=<patched copy>, no shim: baseline environment)")
         rc0, o0 = sh("/venv/bin/python %s" % demo, env={"PYTHONPATH": "/repo:/tmp/xshim", "PYTHONHASHSEED": "0"}, cwd="/tmp", timeout=600)
         rc1, o1 = sh("/venv/bin/python %s" % demo, env=env, cwd="/tmp", timeout=600)
         meta["demo"] = dict(rc_unpatched=rc0, rc_patched=rc1, patched_output_tail=o1.strip()[-400:])
